@@ -88,6 +88,9 @@ def worker_main(args):
             with open(args.replay) as f:
                 doc = json.load(f)
             rcase = ctxmod.unhex(doc['case'])
+            if 'modes' in doc:
+                from vlib import envmodes
+                envmodes.FORCE[0] = set(doc['modes'])      # the process-wide modes the case ran under when it failed
             if isinstance(rcase, dict) and rcase.get('kind') == 'hammer' and getattr(mod, 'HAMMER', None) is not None:
                 from vlib import concurrent
                 concurrent.hammer(ctx, mod.HAMMER(ctx), budget=3 * getattr(mod, 'HAMMER_BUDGET', 3.0))   # a concurrency witness is replayed by hammering again, longer
